@@ -299,7 +299,17 @@ Theorem %s_api_every_map_order : forall (l l' : list ((Z * string) * bool)),
 Proof. exact (@shuffle_surjective ((Z * string) * bool)). Qed.
 Print Assumptions %s_api_every_map_order.
 '''
+A['getlist'] = '''(* RegisterValues.GetList of the translated source (what the CLI prints, in this order): for EVERY order in which the
+   four maps are visited the list holds every fetched value exactly once and is ordered by non-decreasing sort key *)
+Theorem %s_api_GetList : forall rv o1 o2 o3 o4 s,
+  exists l, go_GetList rv o1 o2 o3 o4 s = (DVal l, s) /\\
+            Sorting.Permutation.Permutation (all_values rv) l /\\
+            Sorting.Sorted.Sorted (GV.Tables.RegListFacts.le_by value_key) l.
+Proof. exact go_GetList_spec. Qed.
+Print Assumptions %s_api_GetList.
+'''
 aplan = {
+    'C20': ['getlist'],
     'C11': ['connect'],
     'C05': ['wrapped'],
     'C09': ['num', 'text', 'enum', 'fl', 'fl_bits'],
